@@ -335,6 +335,12 @@ func resolveScalarBatch(sources []interface{}, typ *Scalar, destinations []*outp
 func resolveEnumBatch(sources []interface{}, typ *Enum, destinations []*outputNode) error {
 	for i, source := range sources {
 		val := unwrap(source)
+		if val == nil {
+			// A batch field func answers "null" by leaving the entry out; the
+			// enum is nullable in that case (NonNullable rejects it earlier).
+			destinations[i].Fill(nil)
+			continue
+		}
 		if mapVal, ok := typ.ReverseMap[val]; !ok {
 			err := errors.New("enum is not valid")
 			destinations[i].Fail(err)
